@@ -23,6 +23,19 @@ SMALL = ['gammadet', 'Momentumx', 'Momentumdownx', 'gammaup3', 's_Gamma_udd3', '
          'alpha', 'DDalpha', 'press_n',   # names containing input names
          'levicivita_down3',    # a no-argument helper that has no description
          's_covd']      # rel['s_covd'] hands out the method (takes arguments)
+# histories that contain a refused request (the calculation raises, the
+# caller catches, the object stays in use)
+REFUSED = ['refused:Psi4_lm', 'gammadet', 'Ktrace', 'Weyl_Psi', 'gammaup3',
+           's_RicciS']
+REFUSED_CFGS = [(period, thr, imp, (4, 5, 6), path)
+                for period, thr, imp, path in [
+                    (1, 'always', (), 'freeze'), (2, 'never', (), 'freeze'),
+                    (3, 'mid', (('s_Gamma_udd3', 0),), 'load'),
+                    (20, 'never', (), 'load'), (2, 'mid2', (), 'late'),
+                    (1, 'never', (('gammaup3', 50.0),), 'freeze'),
+                    (3, 'always', (), 'load'), (5, 'mid', (), 'freeze'),
+                    (2, 'always', (('s_Gamma_udd3', 0),), 'late'),
+                    (5, 'never', (), 'touched')]]
 _CFG = None
 _PROBLEMS = None      # filled by the monitored core
 
@@ -248,6 +261,8 @@ class System:
                 return viol
             return self.run_over_time(tag)
         n0 = set(self.rel.data)
+        if op.startswith('refused:'):
+            return self.apply_refused(op.split(':', 1)[1], checked)
         try:
             with gc.quiet():
                 v = self.rel[op]
@@ -279,6 +294,39 @@ class System:
                     viol.append(("C03:F5:input-not-returned",
                                  f"{self.cfg}: rel[{k!r}] is not the frozen "
                                  f"input after {self.ops}"))
+        del self.problems[:]
+        return viol
+
+    def apply_refused(self, key, checked):
+        """A request whose calculation is refused (a documented option given
+        an invalid value: the error is the caller's to catch); the object
+        stays in use afterwards, so the bookkeeping invariants must hold
+        right after the refusal and at every later clean-up."""
+        viol = []
+        rel = self.rel
+        saved = rel.interp_method
+        rel.interp_method = 'no-such-method'
+        raised = False
+        try:
+            with gc.quiet():
+                rel[key]
+        except Exception:      # noqa: BLE001  (the refusal itself is fine)
+            raised = True
+        finally:
+            rel.interp_method = saved
+        self.last = ('refused', raised)
+        if raised:
+            # the recording subclass checks only when a request returns
+            rel._depth = 0
+            rel.check('refused:' + key, True)
+        if checked:
+            if raised and key in rel.data:
+                viol.append(("C03:F2:refused-request-cached",
+                             f"{self.cfg}: {key} cached by a request that "
+                             f"raised, after {self.ops}"))
+            for p in self.problems:
+                viol.append((f"C03:{p[0]}",
+                             f"{self.cfg}: {p} after {self.ops}"[:300]))
         del self.problems[:]
         return viol
 
@@ -399,7 +447,11 @@ def plans(tier):
                      (3, 'mid2', imps[2], (4, 5, 6), 'late'),
                      (5, 'mid', imps[3], (4, 5, 6), 'freeze')]:
             P.append((cfgx, SMALL, 3))
+        for cfgx in REFUSED_CFGS[:6]:
+            P.append((cfgx, REFUSED, 3))
     else:
+        for cfgx in REFUSED_CFGS:
+            P.append((cfgx, REFUSED, 4))
         for period in periods:
             for thr in thrs:
                 for imp in imps:
